@@ -297,7 +297,28 @@ def check_wrapper_debug(rep, fb):
                 rep.ob("leak.alias-debug-opaque", inst, True, "aliased type %s has no Debug impl with MIR in cipher" % target)
 
 
-def zeroized_paths(cr, body, depth=0):
+def _callee_for(cr, body, t, fn, self_adt):
+    """workspace body a call goes to; a method of a workspace trait called on a generic `Self` is
+    taken from the impl for `self_adt`, the type whose Drop is being analysed."""
+    callee = cr.by_path.get((fn.get("resolved") or fn)["path"]) or cr.by_path.get(fn["path"])
+    if callee is not None and callee.get("blocks"):
+        return callee
+    if fn.get("trait") and self_adt and t["args"] and t["args"][0]["k"] in ("copy", "move"):
+        rt = cr.types[body["locals"][t["args"][0]["place"]["local"]]["ty"]]
+        while rt["k"] in ("ref", "rawptr", "ptr") and "inner" in rt:
+            rt = cr.types[rt["inner"]]
+        adt = rt.get("adt") if rt["k"] == "adt" else (self_adt if rt["k"] == "param" and rt.get("name") == "Self" else None)
+        if adt is None:
+            return None
+        ims = [im for im in cr.impls if im.get("trait") == fn["trait"] and im.get("self_adt") == adt]
+        if len(ims) == 1:
+            for b in cr.bodies_of_impl(ims[0]):
+                if b["name"] == fn["name"]:
+                    return b
+    return None
+
+
+def zeroized_paths(cr, body, depth=0, self_adt=None):
     """{(argument index, field path tuple)} wiped by Zeroize::zeroize on every path through `body`,
     directly or through workspace helper functions that receive a reference derived from an argument
     (`self.state.wipe()`); () as path = the whole pointee of that argument."""
@@ -306,6 +327,15 @@ def zeroized_paths(cr, body, depth=0):
     dom = G.dominators(body)
     rets = G.return_blocks(body)
     out = set()
+
+    def callres(b_, t_, fn_):
+        # which part of which argument an accessor's returned reference points into
+        if not fn_.get("local") and not fn_.get("trait"):
+            return None
+        cal = _callee_for(cr, b_, t_, fn_, self_adt)
+        if cal is None:
+            return None
+        return G.ref_source(cal, 0, types=cr.types, callres=callres)
     for i, t, fn in G.calls(body):
         if not all(i in dom[r] for r in rets):
             continue
@@ -314,14 +344,14 @@ def zeroized_paths(cr, body, depth=0):
         if fn.get("trait", "").endswith("Zeroize") and fn["name"] == "zeroize":
             a0 = t["args"][0]
             if a0["k"] in ("copy", "move"):
-                src = G.ref_source(body, a0["place"]["local"], types=cr.types)
+                src = G.ref_source(body, a0["place"]["local"], types=cr.types, callres=callres)
                 if src:
                     out.add((src[0], tuple(str(x) for x in src[1])))
             continue
-        callee = cr.by_path.get((fn.get("resolved") or fn)["path"]) or cr.by_path.get(fn["path"])
-        if callee is None or not fn.get("local"):
+        callee = _callee_for(cr, body, t, fn, self_adt)
+        if callee is None or not (fn.get("local") or fn.get("trait")):
             continue
-        inner = zeroized_paths(cr, callee, depth + 1)
+        inner = zeroized_paths(cr, callee, depth + 1, self_adt)
         for (ai, fpath) in inner:
             if ai - 1 >= len(t["args"]):
                 continue
@@ -342,7 +372,7 @@ def drop_zeroizes(cr, im):
     if body is None:
         return None, set()
     covered = set()
-    for ai, fpath in zeroized_paths(cr, body):
+    for ai, fpath in zeroized_paths(cr, body, 0, im.get("self_adt")):
         if ai == 1 and fpath:
             covered.add(fpath[0])
             covered.add(".".join(fpath))
